@@ -50,7 +50,7 @@ RECURSIVE ClosureF(_, _, _, _, _)
 ClosureF(par, ch, tgt, S, fuel) == IF fuel = 0 THEN S ELSE ClosureF(par, ch, tgt, Step1(par, ch, tgt, S), fuel - 1)
 Closure(par, ch, tgt, n) == ClosureF(par, ch, tgt, {n}, Cardinality(DOMAIN par))
 
-\* A state for copies: [par, ch, tgt, cls, foo] functions over the live nodes.
+\* A state for copies: [par, ch, tgt, cls, foo, own] functions over the live nodes (own: sequence of <<key, value>> pairs).
 \* C19 as a predicate: `post` extends `pre` by an independent, consistent, isomorphic copy of the closure of n;
 \* bij maps each node of the closure to its copy; result is the node returned by the copy operation.
 Img(bij, x) == IF x = Nil THEN Nil ELSE bij[x]
@@ -68,8 +68,9 @@ IsCopy(pre, post, n, bij, result) ==
         /\ post.tgt[bij[x]] = Img(bij, pre.tgt[x])
         /\ post.cls[bij[x]] = pre.cls[x]
         /\ post.foo[bij[x]] = pre.foo[x]
+        /\ post.own[bij[x]] = pre.own[x]               \* the node's own instance attributes (a link may have some, too)
   /\ \A x \in old:                                    \* the original is untouched
         /\ post.par[x] = pre.par[x] /\ post.ch[x] = pre.ch[x] /\ post.tgt[x] = pre.tgt[x]
-        /\ post.cls[x] = pre.cls[x] /\ post.foo[x] = pre.foo[x]
+        /\ post.cls[x] = pre.cls[x] /\ post.foo[x] = pre.foo[x] /\ post.own[x] = pre.own[x]
   /\ WellFormed(post.par, post.ch)                    \* C01 on the whole
 =============================================================================
